@@ -163,14 +163,6 @@ Qed.
 Lemma root_accepts root it : push_item [] root it = Ok ([], root_push root it).
 Proof. reflexivity. Qed.
 
-(* F24 *)
-Definition ns_witness : program :=
-  mkProg [] [SRule [SPlain [97]] [SNs [98] None [SMedia [112;114;105;110;116] [SDecl [99] [100]]]]].
-Lemma refuted_ns :
-  compile FUEL Expanded ns_witness = Ok ([], 1%nat)
-  /\ reach_program FUEL ns_witness = [LDecl [[98]] [99] [100]].
-Proof. split; vm_compute; reflexivity. Qed.
-
 (* ------------------------------------------------------------------------ *)
 (* @error always propagates: no arm of the evaluator handles an error *)
 Definition is_lerror (x : leafstmt) : bool := match x with LError _ => true | _ => false end.
@@ -214,9 +206,9 @@ Proof.
     apply bind_ok in H. destruct H as [st0 [_ H]].
     apply bind_ok in H. destruct H as [st1 [_ H]]. apply bind_ok in H. destruct H as [st2 [H _]].
     rewrite has_error_app, (HB _ _ _ _ _ _ H). destruct value; reflexivity.
-  - apply bind_ok in H. destruct H as [st2 [H _]]. apply (HB _ _ _ _ _ _ H).
+  - apply bind_ok in H. destruct H as [st1 [_ H]]. apply bind_ok in H. destruct H as [st2 [H _]]. apply (HB _ _ _ _ _ _ H).
   - destruct body as [b|]; [|reflexivity].
-    apply bind_ok in H. destruct H as [st2 [H _]]. apply (HB _ _ _ _ _ _ H).
+    apply bind_ok in H. destruct H as [st1 [_ H]]. apply bind_ok in H. destruct H as [st2 [H _]]. apply (HB _ _ _ _ _ _ H).
   - destruct (at_root ctx sels) as [ctx'|]; [|discriminate].
     destruct (c_s ctx').
     + apply bind_ok in H. destruct H as [st1 [_ H]]. apply bind_ok in H. destruct H as [st2 [H _]].
@@ -248,188 +240,243 @@ Proof.
 Qed.
 
 (* ------------------------------------------------------------------------ *)
-(* programs without nested-property blocks: no Drop ever swallows an error *)
-Fixpoint ns_free (s : stmt) : bool :=
-  let all := fix all (l : list stmt) : bool := match l with [] => true | x :: r => ns_free x && all r end in
-  match s with
-  | SNs _ _ _ => false
-  | SRule _ b | SMedia _ b | SAtR _ _ (Some b) | SAtRoot _ b | SLoop _ b => all b
-  | SEach _ bs => (fix alll (l : list (list stmt)) : bool := match l with [] => true | x :: r => all x && alll r end) bs
-  | SIf _ t e => all t && all e
-  | SInclude _ (Some c) => all c
-  | _ => true
+(* since rsass ac4acd7 nothing but another nested-property destination can be opened
+   inside a nested-property destination: the open destinations are always some FNs
+   frames on top of frames that are not FNs, and no Drop ever swallows an error *)
+Definition shape (fs : list frame) : list bool := map is_ns fs.
+Fixpoint wfs (l : list bool) : bool :=
+  match l with
+  | [] => true
+  | true :: r => wfs r
+  | false :: r => forallb negb r
   end.
-Fixpoint ns_free_l (l : list stmt) : bool :=
-  match l with [] => true | x :: r => ns_free x && ns_free_l r end.
-Definition cenv_free (cenv : list (option (list stmt))) : bool :=
-  forallb (fun o => match o with Some l => ns_free_l l | None => true end) cenv.
+Definition wf (fs : list frame) : bool := wfs (shape fs).
 
-Definition good (st st' : dstate) : Prop :=
-  no_ns (d_frames st') = true /\ d_lost st' = d_lost st.
+Lemma no_ns_shape fs : no_ns fs = forallb negb (shape fs).
+Proof. induction fs as [|f r IH]; [reflexivity|]. unfold no_ns, shape in *. cbn [forallb map]. rewrite IH. reflexivity. Qed.
 
-Lemma good_refl st : no_ns (d_frames st) = true -> good st st.
-Proof. intros H; split; [exact H | reflexivity]. Qed.
-Lemma good_trans a b c : good a b -> good b c -> good a c.
-Proof. intros [_ L1] [N2 L2]. split; [exact N2 | congruence]. Qed.
-
-Lemma push_property_no_ns : forall fs root n v fs' root',
-  no_ns fs = true -> push_property fs root n v = Ok (fs', root') -> no_ns fs' = true.
+Lemma shape_no_ns_eq a b : no_ns a = true -> no_ns b = true -> length a = length b -> shape a = shape b.
 Proof.
-  intros fs root n v fs' root' Hn H. destruct fs as [|f rest]; [discriminate|].
-  cbn in Hn. apply andb_true_iff in Hn. destruct Hn as [Hf Hr].
-  destruct f as [[s b]|name|an a r body|a r body]; try discriminate; cbn in H.
-  - inversion H; subst. cbn. exact Hr.
-  - destruct r as [[s b]|]; inversion H; subst; cbn; exact Hr.
-  - destruct r as [[s b]|]; inversion H; subst; cbn; exact Hr.
+  revert b. induction a as [|x a IH]; intros [|y b] Ha Hb L; try discriminate; [reflexivity|].
+  cbn in *. apply andb_true_iff in Ha. apply andb_true_iff in Hb. destruct Ha as [Hx Ha], Hb as [Hy Hb].
+  rewrite negb_true_iff in Hx, Hy. rewrite Hx, Hy. f_equal. apply IH; [assumption | assumption | lia].
 Qed.
 
-Lemma push_comment_no_ns : forall fs root c, no_ns fs = true -> no_ns (fst (push_comment fs root c)) = true.
+Definition keeps (st st' : dstate) : Prop :=
+  shape (d_frames st') = shape (d_frames st) /\ d_lost st' = d_lost st.
+Lemma keeps_refl st : keeps st st. Proof. split; reflexivity. Qed.
+Lemma keeps_trans a b c : keeps a b -> keeps b c -> keeps a c.
+Proof. intros [S1 L1] [S2 L2]. split; congruence. Qed.
+
+Lemma push_property_shape : forall fs root n v fs' root',
+  push_property fs root n v = Ok (fs', root') -> shape fs' = shape fs.
 Proof.
-  intros fs root c Hn. destruct fs as [|f rest]; [reflexivity|].
-  cbn in Hn. apply andb_true_iff in Hn. destruct Hn as [Hf Hr].
-  destruct f as [[s b]|name|an a r body|a r body]; try discriminate; cbn.
-  - exact Hr.
-  - destruct r as [[s b]|]; cbn; exact Hr.
-  - destruct r as [[s b]|]; cbn; exact Hr.
+  induction fs as [|f rest IH]; intros root n v fs' root' H; [discriminate|].
+  destruct f as [[s b]|name|an a r body|a r body]; cbn [push_property] in H.
+  - inversion H; subst. reflexivity.
+  - destruct (push_property rest root (name ++ dash ++ n) v) as [[rest1 root1]| | |] eqn:E; try discriminate.
+    inversion H; subst. cbn. f_equal. apply (IH _ _ _ _ _ E).
+  - destruct r as [[s b]|]; inversion H; subst; reflexivity.
+  - destruct r as [[s b]|]; inversion H; subst; reflexivity.
 Qed.
 
-Lemma close_good st : no_ns (d_frames st) = true -> good st (close st).
+Lemma push_comment_shape : forall fs root c, shape (fst (push_comment fs root c)) = shape fs.
 Proof.
-  intros Hn. assert (Ht : no_ns (tl (d_frames st)) = true).
-  { destruct (d_frames st) as [|f r]; [reflexivity|]. cbn in Hn. apply andb_true_iff in Hn. apply Hn. }
-  destruct (close_no_loss (fun _ => 0%nat) st Ht) as [L [_ N]]. split; assumption.
+  induction fs as [|f rest IH]; intros root c; [reflexivity|].
+  destruct f as [[s b]|name|an a r body|a r body]; cbn [push_comment].
+  - reflexivity.
+  - specialize (IH root c). destruct (push_comment rest root c) as [rest1 root1]. cbn in *. f_equal. exact IH.
+  - destruct r as [[s b]|]; reflexivity.
+  - destruct r as [[s b]|]; reflexivity.
 Qed.
 
-Section NsFree.
+Lemma wf_top_free f rest : wf (f :: rest) = true -> is_ns f = false -> no_ns rest = true.
+Proof. unfold wf. cbn. intros H E. rewrite E in H. rewrite no_ns_shape. exact H. Qed.
+
+Lemma wf_free fs : wf fs = true -> match fs with FNs _ :: _ => False | _ => True end -> no_ns fs = true.
+Proof.
+  intros H T. destruct fs as [|f rest]; [reflexivity|].
+  destruct f; try contradiction; cbn; apply (wf_top_free _ rest H); reflexivity.
+Qed.
+
+(* Drop of the innermost destination under the invariant *)
+Lemma close_keeps st f rest : d_frames st = f :: rest -> wf (f :: rest) = true ->
+  shape (d_frames (close st)) = shape rest /\ d_lost (close st) = d_lost st.
+Proof.
+  intros E W. destruct (is_ns f) eqn:N.
+  - destruct f; try discriminate. destruct st as [fs root lost]. cbn in E. subst fs. cbn. split; reflexivity.
+  - pose proof (wf_top_free f rest W N) as Hn.
+    assert (Ht : no_ns (tl (d_frames st)) = true) by (rewrite E; exact Hn).
+    destruct (close_no_loss (fun _ => 0%nat) st Ht) as [L [_ Nn]]. split; [|exact L].
+    apply shape_no_ns_eq; [exact Nn | exact Hn|].
+    (* the length of the stack after the Drop *)
+    destruct st as [fs root lost]. cbn in E. subst fs. cbn [close d_frames d_root d_lost].
+    assert (DP : forall it, length (d_frames (drop_push rest root lost (Some it))) = length rest).
+    { intros it. unfold drop_push. destruct (push_item_total rest root it Hn) as [fs' [root' Ep]]. rewrite Ep.
+      destruct (push_item_f_ok (fun _ => 0%nat) _ _ _ _ _ _ Ep) as [_ [Lp _]]. cbn. exact Lp. }
+    destruct f as [[s b]|name|an a r body|a r body]; try discriminate.
+    + destruct b; [reflexivity | apply DP].
+    + apply DP.
+    + apply DP.
+Qed.
+
+Section NoLoss.
   Variables (n : nat) (ms : list (list stmt)) (c : bool).
-  Hypothesis Hms : forallb ns_free_l ms = true.
   Hypothesis IH : forall cenv ctx st s st',
-    cenv_free cenv = true -> ns_free s = true -> no_ns (d_frames st) = true ->
-    eval_item n ms c cenv ctx st s = Ok st' -> good st st'.
+    wf (d_frames st) = true -> eval_item n ms c cenv ctx st s = Ok st' -> keeps st st'.
 
-  Lemma body_good cenv ctx : cenv_free cenv = true -> forall l st st',
-    ns_free_l l = true -> no_ns (d_frames st) = true ->
-    run_body (eval_item n ms c cenv ctx) l st = Ok st' -> good st st'.
+  Lemma body_keeps cenv ctx : forall l st st',
+    wf (d_frames st) = true -> run_body (eval_item n ms c cenv ctx) l st = Ok st' -> keeps st st'.
   Proof.
-    intros Hc. induction l as [|x r IHl]; intros st st' Hl Hn H.
-    - cbn in H. inversion H; subst. apply good_refl, Hn.
-    - cbn in Hl. apply andb_true_iff in Hl. destruct Hl as [Hx Hr].
-      cbn [run_body] in H. apply bind_ok in H. destruct H as [st1 [H1 H2]].
-      pose proof (IH _ _ _ _ _ Hc Hx Hn H1) as G1.
-      apply (good_trans _ _ _ G1). apply (IHl _ _ Hr (proj1 G1) H2).
+    induction l as [|x r IHl]; intros st st' W H.
+    - cbn in H. inversion H; subst. apply keeps_refl.
+    - cbn [run_body] in H. apply bind_ok in H. destruct H as [st1 [H1 H2]].
+      pose proof (IH _ _ _ _ _ W H1) as K1.
+      assert (W1 : wf (d_frames st1) = true) by (unfold wf in *; rewrite (proj1 K1); exact W).
+      apply (keeps_trans _ _ _ K1 (IHl _ _ W1 H2)).
   Qed.
-End NsFree.
+End NoLoss.
 
-Lemma ns_free_all_eq : forall l,
-  (fix all (l : list stmt) : bool := match l with [] => true | x :: r => ns_free x && all r end) l = ns_free_l l.
-Proof. induction l as [|x r IH]; [reflexivity|]. cbn. rewrite IH. reflexivity. Qed.
-
-Lemma nth_error_forallb {A} (f : A -> bool) l k x :
-  forallb f l = true -> nth_error l k = Some x -> f x = true.
+(* a block statement: open a destination that is not FNs, run the body, drop it *)
+Lemma block_keeps (f : frame) st st1 st2 :
+  is_ns f = false -> wf (d_frames st) = true ->
+  match d_frames st with FNs _ :: _ => False | _ => True end ->
+  d_frames st1 = f :: d_frames st -> d_lost st1 = d_lost st -> keeps st1 st2 ->
+  wf (d_frames st1) = true /\ keeps st (close st2).
 Proof.
-  revert k. induction l as [|y r IH]; intros k Hf Hk; [destruct k; discriminate|].
-  cbn in Hf. apply andb_true_iff in Hf. destruct Hf as [Hy Hr].
-  destruct k; cbn in Hk; [inversion Hk; subst; exact Hy | apply (IH k Hr Hk)].
+  intros N W T E1 L1 K.
+  assert (W1 : wf (d_frames st1) = true).
+  { rewrite E1. unfold wf. cbn. rewrite N. rewrite <- no_ns_shape. apply wf_free; assumption. }
+  split; [exact W1|].
+  destruct K as [S2 L2].
+  destruct (d_frames st2) as [|f2 rest2] eqn:E2; [rewrite E1 in S2; discriminate|].
+  assert (W2 : wf (f2 :: rest2) = true) by (unfold wf in *; rewrite S2; exact W1).
+  destruct (close_keeps st2 f2 rest2 E2 W2) as [Sc Lc].
+  split; [|congruence].
+  rewrite Sc. rewrite E1 in S2. cbn in S2. inversion S2. unfold shape. assumption.
 Qed.
 
-Lemma ns_free_good : forall fuel ms c, forallb ns_free_l ms = true ->
-  forall cenv ctx st s st',
-  cenv_free cenv = true -> ns_free s = true -> no_ns (d_frames st) = true ->
-  eval_item fuel ms c cenv ctx st s = Ok st' -> good st st'.
+Lemma all_keeps : forall fuel ms c cenv ctx st s st',
+  wf (d_frames st) = true -> eval_item fuel ms c cenv ctx st s = Ok st' -> keeps st st'.
 Proof.
-  induction fuel as [|n IH]; intros ms c Hms cenv ctx st s st' Hc Hs Hn H; [discriminate|].
-  pose proof (body_good n ms c (IH ms c Hms)) as HB.
-  assert (Hstart : forall st0 ss st1, no_ns (d_frames st0) = true -> start_rule st0 ss = Ok st1 -> good st0 st1).
-  { intros st0 ss st1 Hn0 E. unfold start_rule in E. destruct (d_frames st0) as [|f r] eqn:Ef.
-    - inversion E; subst. split; reflexivity.
-    - destruct f; inversion E; subst; split; try reflexivity; cbn; cbn in Hn0; exact Hn0. }
-  destruct s; cbn [eval_item] in H; cbn [ns_free] in Hs; rewrite ?ns_free_all_eq in Hs.
+  induction fuel as [|n IH]; intros ms c cenv ctx st s st' W H; [discriminate|].
+  pose proof (body_keeps n ms c (IH ms c)) as HB.
+  assert (Hblock : forall f st1 cenv' ctx' b st2,
+            is_ns f = false -> match d_frames st with FNs _ :: _ => False | _ => True end ->
+            d_frames st1 = f :: d_frames st -> d_lost st1 = d_lost st ->
+            run_body (eval_item n ms c cenv' ctx') b st1 = Ok st2 -> keeps st (close st2)).
+  { intros f st1 cenv' ctx' b st2 N T E1 L1 E2.
+    assert (W1 : wf (d_frames st1) = true).
+    { rewrite E1. unfold wf. cbn. rewrite N. rewrite <- no_ns_shape. apply wf_free; assumption. }
+    apply (block_keeps f st st1 st2 N W T E1 L1 (HB _ _ _ _ _ W1 E2)). }
+  assert (Hstart : forall ss st1, start_rule st ss = Ok st1 ->
+            match d_frames st with FNs _ :: _ => False | _ => True end
+            /\ d_frames st1 = FRule (ss, []) :: d_frames st /\ d_lost st1 = d_lost st).
+  { intros ss st1 E. unfold start_rule in E. destruct (d_frames st) as [|f r].
+    - inversion E; subst. cbn. auto.
+    - destruct f; inversion E; subst; cbn; auto. }
+  destruct s; cbn [eval_item] in H.
   - (* declaration *)
     unfold with_frames in H. apply bind_ok in H. destruct H as [[fs root] [E H]]. inversion H; subst.
-    split; [cbn; apply (push_property_no_ns _ _ _ _ _ _ Hn E) | reflexivity].
+    split; [cbn; apply (push_property_shape _ _ _ _ _ _ E) | reflexivity].
   - (* comment *)
     destruct (c && negb (starts_bang text)).
-    + inversion H; subst. apply good_refl, Hn.
-    + pose proof (push_comment_no_ns (d_frames st) (d_root st) (IComment text) Hn) as P.
+    + inversion H; subst. apply keeps_refl.
+    + pose proof (push_comment_shape (d_frames st) (d_root st) (IComment text)) as P.
       destruct (push_comment (d_frames st) (d_root st) (IComment text)) as [fs root].
       inversion H; subst. split; [exact P | reflexivity].
   - (* rule *)
     destruct (negb (check_body BRule body)); [discriminate|].
     destruct (nest ctx sels) as [ss|]; [|discriminate].
     apply bind_ok in H. destruct H as [st1 [E1 H]]. apply bind_ok in H. destruct H as [st2 [E2 H]].
+    inversion H; subst. destruct (Hstart _ _ E1) as [T [F1 L1]].
+    eapply Hblock; [| exact T | exact F1 | exact L1 | exact E2]; reflexivity.
+  - (* nested property *)
+    destruct (negb (check_body BNsRule body)); [discriminate|].
+    apply bind_ok in H. destruct H as [st0 [E0 H]].
+    apply bind_ok in H. destruct H as [st1 [E1 H]]. apply bind_ok in H. destruct H as [st2 [E2 H]].
     inversion H; subst.
-    pose proof (Hstart _ _ _ Hn E1) as G1. pose proof (HB _ _ Hc _ _ _ Hs (proj1 G1) E2) as G2.
-    apply (good_trans _ _ _ G1), (good_trans _ _ _ G2), close_good, (proj1 G2).
-  - discriminate.
+    assert (K0 : keeps st st0).
+    { destruct value as [v|]; [|inversion E0; subst; apply keeps_refl].
+      unfold with_frames in E0. apply bind_ok in E0. destruct E0 as [[fs root] [Ep E0]]. inversion E0; subst.
+      split; [cbn; apply (push_property_shape _ _ _ _ _ _ Ep) | reflexivity]. }
+    assert (W0 : wf (d_frames st0) = true) by (unfold wf in *; rewrite (proj1 K0); exact W).
+    unfold start_nsrule in E1. destruct (d_frames st0) as [|f0 r0] eqn:Ef0; [discriminate|].
+    inversion E1; subst.
+    assert (W1 : wf (FNs name :: f0 :: r0) = true) by exact W0.
+    pose proof (HB cenv ctx body (mkD (FNs name :: f0 :: r0) (d_root st0) (d_lost st0)) st2 W1 E2) as [S2 L2].
+    cbn [d_frames d_lost] in S2, L2.
+    destruct (d_frames st2) as [|f2 rest2] eqn:Ef2; [discriminate|].
+    assert (W2 : wf (f2 :: rest2) = true) by (unfold wf, shape in *; cbn [map] in *; rewrite S2; exact W1).
+    destruct (close_keeps st2 f2 rest2 Ef2 W2) as [Sc Lc].
+    apply (keeps_trans _ _ _ K0). split.
+    + rewrite Sc, Ef0. cbn in S2. inversion S2. unfold shape. cbn [map]. congruence.
+    + congruence.
   - (* @media *)
-    apply bind_ok in H. destruct H as [st2 [E2 H]]. inversion H; subst.
-    assert (G1 : good st (start_atmedia st (MName query))).
-    { split; [cbn; exact Hn | reflexivity]. }
-    pose proof (HB _ _ Hc _ _ _ Hs (proj1 G1) E2) as G2.
-    apply (good_trans _ _ _ G1), (good_trans _ _ _ G2), close_good, (proj1 G2).
+    apply bind_ok in H. destruct H as [st1 [E1 H]]. apply bind_ok in H. destruct H as [st2 [E2 H]].
+    inversion H; subst. unfold start_atmedia in E1.
+    destruct (d_frames st) as [|f r] eqn:Ef.
+    + inversion E1; subst. eapply Hblock; [| | | | exact E2]; cbn; rewrite ?Ef; auto; try reflexivity.
+    + destruct f; inversion E1; subst;
+        (eapply Hblock; [| | | | exact E2]; cbn; rewrite ?Ef; auto; try reflexivity).
   - (* at-rule *)
     destruct body as [b|].
-    + rewrite ?ns_free_all_eq in Hs.
-      apply bind_ok in H. destruct H as [st2 [E2 H]]. inversion H; subst.
-      assert (G1 : good st (start_atrule st name (option_map same_leaf args))).
-      { split; [cbn; exact Hn | reflexivity]. }
-      pose proof (HB _ _ Hc _ _ _ Hs (proj1 G1) E2) as G2.
-      apply (good_trans _ _ _ G1), (good_trans _ _ _ G2), close_good, (proj1 G2).
+    + apply bind_ok in H. destruct H as [st1 [E1 H]]. apply bind_ok in H. destruct H as [st2 [E2 H]].
+      inversion H; subst. unfold start_atrule in E1.
+      destruct (d_frames st) as [|f r] eqn:Ef.
+      * inversion E1; subst. eapply Hblock; [| | | | exact E2]; cbn; rewrite ?Ef; auto; try reflexivity.
+      * destruct f; inversion E1; subst;
+          (eapply Hblock; [| | | | exact E2]; cbn; rewrite ?Ef; auto; try reflexivity).
     + unfold with_frames in H. apply bind_ok in H. destruct H as [[fs root] [E H]]. inversion H; subst.
-      destruct (push_item_f_ok (fun _ => 0%nat) _ _ _ _ _ _ E) as [_ [_ N]].
-      split; [cbn [d_frames]; rewrite N; exact Hn | reflexivity].
+      assert (T : match d_frames st with FNs _ :: _ => False | _ => True end).
+      { destruct (d_frames st) as [|f r]; [exact I|]. destruct f; try exact I.
+        unfold push_item in E. cbn in E. discriminate. }
+      pose proof (wf_free _ W T) as Hn.
+      destruct (push_item_f_ok (fun _ => 0%nat) _ _ _ _ _ _ E) as [_ [L N]].
+      split; [|reflexivity]. cbn [d_frames].
+      apply shape_no_ns_eq; [rewrite N; exact Hn | exact Hn | exact L].
   - (* @at-root *)
     destruct (at_root ctx sels) as [ctx'|]; [|discriminate].
     destruct (c_s ctx') as [ss|].
     + apply bind_ok in H. destruct H as [st1 [E1 H]]. apply bind_ok in H. destruct H as [st2 [E2 H]].
-      inversion H; subst.
-      pose proof (Hstart _ _ _ Hn E1) as G1. pose proof (HB _ _ Hc _ _ _ Hs (proj1 G1) E2) as G2.
-      apply (good_trans _ _ _ G1), (good_trans _ _ _ G2), close_good, (proj1 G2).
-    + apply (HB _ _ Hc _ _ _ Hs Hn H).
+      inversion H; subst. destruct (Hstart _ _ E1) as [T [F1 L1]].
+      eapply Hblock; [| exact T | exact F1 | exact L1 | exact E2]; reflexivity.
+    + apply (HB _ _ _ _ _ W H).
   - discriminate.
   - (* @if *)
-    apply andb_true_iff in Hs. rewrite ?ns_free_all_eq in Hs. destruct Hs as [Ht He].
     destruct (negb (check_body BControl (if c0 then t else e))); [discriminate|].
-    apply (HB _ _ Hc _ _ _ (if c0 as b return ns_free_l (if b then t else e) = true then Ht else He) Hn H).
+    apply (HB _ _ _ _ _ W H).
   - (* loop *)
     destruct (negb (check_body BControl body)); [discriminate|].
-    revert st Hn H. induction n0 as [|k IHk]; intros st Hn H.
-    + inversion H; subst. apply good_refl, Hn.
+    clear Hblock Hstart. revert st W H. induction n0 as [|k IHk]; intros st W H.
+    + inversion H; subst. apply keeps_refl.
     + apply bind_ok in H. destruct H as [st1 [H1 H2]].
-      pose proof (HB _ _ Hc _ _ _ Hs Hn H1) as G1.
-      apply (good_trans _ _ _ G1), (IHk _ (proj1 G1) H2).
+      pose proof (HB _ _ _ _ _ W H1) as K1.
+      assert (W1 : wf (d_frames st1) = true) by (unfold wf in *; rewrite (proj1 K1); exact W).
+      apply (keeps_trans _ _ _ K1). apply (IHk _ W1 H2).
   - (* loop with per-iteration bodies *)
     destruct (negb (check_body BControl proto)); [discriminate|].
-    revert st Hn H Hs. induction bodies as [|b r IHb]; intros st Hn H Hs.
-    + inversion H; subst. apply good_refl, Hn.
-    + apply andb_true_iff in Hs. destruct Hs as [Hb Hr]. rewrite ?ns_free_all_eq in Hb.
-      apply bind_ok in H. destruct H as [st1 [H1 H2]].
-      pose proof (HB _ _ Hc _ _ _ Hb Hn H1) as G1.
-      apply (good_trans _ _ _ G1), (IHb _ (proj1 G1) H2 Hr).
+    clear Hblock Hstart. revert st W H. induction bodies as [|b r IHb]; intros st W H.
+    + inversion H; subst. apply keeps_refl.
+    + apply bind_ok in H. destruct H as [st1 [H1 H2]].
+      pose proof (HB _ _ _ _ _ W H1) as K1.
+      assert (W1 : wf (d_frames st1) = true) by (unfold wf in *; rewrite (proj1 K1); exact W).
+      apply (keeps_trans _ _ _ K1). apply (IHb _ W1 H2).
   - (* @include *)
-    destruct (nth_error ms m) as [mb|] eqn:Em; [|discriminate].
-    assert (Hmb : ns_free_l mb = true) by (apply (nth_error_forallb _ _ _ _ Hms Em)).
-    assert (Hc' : cenv_free (content :: cenv) = true).
-    { unfold cenv_free in *. cbn [forallb]. rewrite Hc. destruct content; [rewrite ?ns_free_all_eq in Hs; rewrite Hs|]; reflexivity. }
-    apply (HB _ _ Hc' _ _ _ Hmb Hn H).
+    destruct (nth_error ms m) as [mb|]; [|discriminate]. apply (HB _ _ _ _ _ W H).
   - (* @content *)
     destruct cenv as [|[cb|] outer].
-    + inversion H; subst. apply good_refl, Hn.
-    + cbn in Hc. apply andb_true_iff in Hc. destruct Hc as [Hcb Ho].
-      apply (HB _ _ Ho _ _ _ Hcb Hn H).
-    + inversion H; subst. apply good_refl, Hn.
+    + inversion H; subst. apply keeps_refl.
+    + apply (HB _ _ _ _ _ W H).
+    + inversion H; subst. apply keeps_refl.
 Qed.
 
-Definition program_ns_free (p : program) : bool := forallb ns_free_l (p_mixins p) && ns_free_l (p_main p).
-
-Lemma ns_free_program fuel c p st : program_ns_free p = true ->
-  eval_program fuel c p = Ok st -> d_lost st = 0%nat.
+Lemma no_error_swallowed fuel c p st : eval_program fuel c p = Ok st -> d_lost st = 0%nat.
 Proof.
-  unfold program_ns_free, eval_program. intros Hp H. apply andb_true_iff in Hp. destruct Hp as [Hm Hb].
+  unfold eval_program. intros H.
   destruct (negb (forallb (check_body BMixin) (p_mixins p))); [discriminate|].
-  assert (G : good (mkD [] (mkData [] []) 0) st).
-  { apply (body_good fuel (p_mixins p) c (ns_free_good fuel (p_mixins p) c Hm) [] root_ctx eq_refl (p_main p) (mkD [] (mkData [] []) 0) st Hb eq_refl H). }
-  apply G.
+  apply (body_keeps fuel (p_mixins p) c (all_keeps fuel (p_mixins p) c) [] root_ctx (p_main p)
+           (mkD [] (mkData [] []) 0) st eq_refl H).
 Qed.
 
 (* ------------------------------------------------------------------------ *)
